@@ -330,7 +330,36 @@ PROPS["C01"] = Prop(rule=_formula_rule % "", classify=_cls_formula, mode="close"
                     trusted=_dual_trusted + ["statrs erfc/erfc_inv ported to Lean Float for the driver; Φ, Φ⁻¹ abstract in the theorems",
                                              "glibc exp/log/pow on both sides"],
                     assumptions=_dual_assume + ["theorems hold where the formula is differentiable (Dom)"])
+def _oracle_c02(t, impl):
+    """model-free: the read-back Hessian is symmetric; the number converted down to first order has the
+    same value and gradient"""
+    if t[0] != "evalgrad2" or not impl.startswith("E2 h"):
+        return None
+    parts = impl.split("|")
+    if len(parts) != 3:
+        return None
+    head = parts[0].split()
+    k = int(head[2][1:])
+    g1 = [f_of_hex(x) for x in head[3:]]
+    h = [f_of_hex(x) for x in parts[1].split()]
+    if len(h) != k * k or len(g1) != k:
+        return "shape: gradient %d, Hessian %d entries for %d names" % (len(g1), len(h), k)
+    for i in range(k):
+        for j in range(i):
+            a, b = h[i * k + j], h[j * k + i]
+            if not (a == b or abs(a - b) <= 1e-9 * max(abs(a), abs(b)) + 1e-300):
+                return "Hessian not symmetric: H[%d][%d]=%r H[%d][%d]=%r" % (i, j, a, j, i, b)
+    down = parts[2].split()
+    if down[0] == "D":
+        if down[1] != head[1]:
+            return "value changed on conversion to first order"
+        dg = [f_of_hex(x) for x in down[5::2]]
+        if len(dg) == k and any(x != y and not (x != x and y != y) for x, y in zip(dg, g1)):
+            return "gradient changed on conversion to first order"
+    return None
+
+
 PROPS["C02"] = Prop(rule=_formula_rule % ", Hessian by name pair, gradient2 read-back, conversion down to first order",
-                    classify=_cls_formula, mode="close", exhaustive=lambda tier: False,
+                    classify=_cls_formula, mode="close", exhaustive=lambda tier: False, oracle=_oracle_c02,
                     trusted=_dual_trusted + ["statrs erfc/erfc_inv ported to Lean Float for the driver"],
                     assumptions=_dual_assume)
